@@ -89,6 +89,10 @@ CaseCatchAll ==
 
 DeclSeq == SetToSeq(decl)
 
+\* constant quantifier bounds: TLC keeps CaseDeclared / CaseRange as named sub-actions (coverage)
+MemberCodes  == Codes(Members)
+MemberRanges == Ranges(Members)
+
 Judge ==
   /\ stage = "done"
   /\ stage' = "judged" /\ UNCHANGED <<decl, transport, status, outcome>>
@@ -99,8 +103,8 @@ Judge ==
 
 Next ==
   \/ LoadFails \/ TransportRaise \/ TransportPass
-  \/ \E c \in Codes(decl) : CaseDeclared(c)
-  \/ \E r \in Ranges(decl) : CaseRange(r)
+  \/ \E c \in MemberCodes : CaseDeclared(c)
+  \/ \E r \in MemberRanges : CaseRange(r)
   \/ CaseDefault \/ CaseCatchAll
   \/ Judge
 
